@@ -251,7 +251,8 @@ theorem heldOf_finishProc (w : World) (p : Pid) (v : Int) (st : Bool) (hi : Pool
     heldOf (finishProc w p v st) pl p = 0 := by
   unfold finishProc
   dsimp only
-  refine Eq.trans (heldOf_viewSame (ViewSame.of_fp (modProc_fp_blocked _ _ _ ?_) rfl rfl) pl p) ?_
+  refine Eq.trans (heldOf_viewSame (ViewSame.of_fp (modProc_fp_blocked _ _ _ ?_ ?_) rfl rfl) pl p) ?_
+  · intro _; rfl
   · intro _; rfl
   refine Eq.trans (heldOf_viewSame (ViewSame.of_same (wakeWaiters_same _ _ _)) pl p) ?_
   split
